@@ -1,10 +1,11 @@
 import NeverModel.Props.C16
 /-!
-# C16 — what the *pinned* tree gets wrong (counterexamples)
+# C16 — what the tree still gets wrong in its destructor table (counterexamples)
 
-These theorems hold because front/parser.y of the pinned tree lacks three destructors.
-They are kept apart from `Props/C16.lean`: when parser.y is repaired they stop being true
-(the check then reports "repaired", not a violation), while every theorem of
+The pinned front/parser.y lacked three destructors (`param_decl`, `param_seq`, `except`).  The `fix:` commit
+adb6ca8 added the one that mattered (`param_seq`, the only one of the three bison can discard); the other two
+rows remain and are latent.  These theorems are kept apart from `Props/C16.lean`: when parser.y is repaired
+further they stop being true (the check then reports "repaired", not a violation), while every theorem of
 `Props/C16.lean` stays true.
 -/
 namespace Never.C16
@@ -15,11 +16,11 @@ def failing (t : List Sym) : List String :=
   (t.filter fun s => s.ownsHeap && !s.handedOut && !releases s).map (·.name)
 
 /-- the failing rows of the current table, exactly -/
-theorem destructor_table_failing_rows : failing syms = ["param_decl", "param_seq", "except"] := by
+theorem destructor_table_failing_rows : failing syms = ["param_decl", "except"] := by
   decide +kernel
 
-/-- **`destructor_table_complete` is false on the pinned tree** (witness: `param_seq`, whose
-value is a `param_list *` built by `param_list_new` and which bison does discard) -/
+/-- `destructor_table_complete` (every heap-owning symbol has a destructor) is still false: `param_decl` and
+`except` have none — but neither can be on bison's stack when an error is detected (`failing_rows_discardable`) -/
 theorem destructor_table_counterexample : ¬ Complete syms := by
   intro h
   have hall : syms.all (fun s => !s.ownsHeap || s.handedOut || releases s) = true := by
@@ -30,10 +31,10 @@ theorem destructor_table_counterexample : ¬ Complete syms := by
   have : syms.all (fun s => !s.ownsHeap || s.handedOut || releases s) = false := by decide +kernel
   rw [this] at hall; cases hall
 
-/-- of the three, bison can discard only `param_seq`; `param_decl` and `except` are
-latent (never on the stack when an error is detected) -/
+/-- none of the remaining rows can be discarded by bison: `param_decl` and `except` are latent
+(never on the stack when an error is detected); `param_seq`, which could, was repaired -/
 theorem failing_rows_discardable :
-    (syms.filter fun s => s.ownsHeap && !s.handedOut && !releases s && s.discardable).map (·.name) = ["param_seq"] := by
+    (syms.filter fun s => s.ownsHeap && !s.handedOut && !releases s && s.discardable).map (·.name) = [] := by
   decide +kernel
 
 end Never.C16
